@@ -44,6 +44,9 @@ class SqliteImpl(SqlImpl):
                 else_=cls.cast_compiled(cast, compiled_val),
             )
 
+        elif val_type == cast.target_type and val_type in (Date(), Datetime()):
+            # `CAST(x AS DATE)` would convert the stored text to a number
+            return compiled_val
         elif val_type == Datetime() and cast.target_type == Date():
             return sqa.type_coerce(sqa.func.date(compiled_val), sqa.Date())
         elif val_type == Date() and cast.target_type == Datetime():
